@@ -121,7 +121,7 @@ Proof.
   destruct (geom_apply_effs es rs j r r' Hj Hj') as [Hg Hlen].
   pose proof (region_ok_of_wf rs j r Hwf Hj) as (Hps & Hsz & Hdl).
   unfold ok_C05_region. cbn [geom_of g_tracked g_ps]. destruct (r_tracked r) eqn:Ht; [|reflexivity]. cbn [negb].
-  assert (Hk : kind_of s <> KReset) by (destruct s as [? ? []| | |]; cbn; try discriminate; cbn in Hr; try discriminate; destruct fderr; discriminate).
+  assert (Hk : kind_of s <> KReset) by (destruct s as [? ? []| | | |]; cbn; try discriminate; cbn in Hr; try discriminate; destruct fderr; discriminate).
   destruct (kind_of s) eqn:K; try congruence; clear Hk.
   all: apply andb_true_iff; split.
   all: try (apply forallb_forall; intros p Hp; apply indices_spec in Hp;
@@ -145,11 +145,11 @@ Qed.
 
 (* ------------------------------------------------------------------ one non-reset step, C16 *)
 Lemma kind_write_like s : is_reset s = false -> is_fd_error s = false -> kind_of s = KWriteLike.
-Proof. destruct s as [? ? []| | |]; cbn; try reflexivity; try discriminate. destruct fderr; [discriminate|reflexivity]. Qed.
+Proof. destruct s as [? ? []| | | |]; cbn; try reflexivity; try discriminate. destruct fderr; [discriminate|reflexivity]. Qed.
 Definition fd_cnt (s : step) : N :=
   match s with SAcc _ _ (OReadFromFd cnt _ _ _) | SAcc _ _ (OReadFromFdFault cnt _ _) => cnt | _ => 0 end.
 Lemma kind_fd_error s : is_fd_error s = true -> kind_of s = KFdError (fd_cnt s).
-Proof. destruct s as [? ? []| | |]; cbn; try discriminate; try reflexivity. destruct fderr; [reflexivity|discriminate]. Qed.
+Proof. destruct s as [? ? []| | | |]; cbn; try discriminate; try reflexivity. destruct fderr; [reflexivity|discriminate]. Qed.
 
 Lemma beyond_clean (r' : region) np : length (r_dirty r') = N.to_nat np ->
   forallb (fun p => implb (np <=? p) (negb (nthb (r_dirty r' ++ [false; false]) p))) (indices (r_dirty r' ++ [false; false])) = true.
@@ -162,7 +162,7 @@ Qed.
 Lemma fd_error_effs hm rs s rs' out : is_fd_error s = true -> run_step hm rs s = (rs', out) ->
   o_effs out = [] \/ exists e, o_effs out = [e] /\ e_mlen e <= fd_cnt s.
 Proof.
-  intros Hf H. destruct s as [ri ch o| | |]; try discriminate. cbn [run_step] in H.
+  intros Hf H. destruct s as [ri ch o| | | |]; try discriminate. cbn [run_step] in H.
   destruct (nth_error rs ri) as [r|]; [|inversion H; left; reflexivity].
   destruct (derive_chain (root r) ch) as [a|]; [|inversion H; left; reflexivity].
   inversion H; subst; clear H. destruct o; try discriminate; cbn [fd_cnt].
@@ -248,12 +248,13 @@ Qed.
 (* ------------------------------------------------------------------ reset steps, geometry, histories *)
 Lemma geom_step hm rs s : map geo (fst (run_step hm rs s)) = map geo rs.
 Proof.
-  destruct s as [ri ch o|o|ri|ri off len]; cbn [run_step].
+  destruct s as [ri ch o|o|ri|ri off len|ri ch rj doff dlen]; cbn [run_step].
   - destruct (nth_error rs ri); [|reflexivity]. destruct (derive_chain (root r) ch); [|reflexivity].
     cbn [fst]. apply geo_apply_effs.
   - cbn [fst]. apply geo_apply_effs.
   - cbn [fst]. apply geo_upd_dirty. intros r; cbn. rewrite map_length. auto.
   - cbn [fst]. apply geo_upd_dirty. intros r; cbn. rewrite mark_length. auto.
+  - cbn [fst]. apply geo_apply_effs.
 Qed.
 Lemma geom_of_geo rs rs' : map geo rs' = map geo rs -> map geom_of rs' = map geom_of rs.
 Proof.
